@@ -48,6 +48,7 @@ BodyKwarg(b) == CASE b = "json" -> <<"json", "application/json">> [] b = "jsonar
                   [] b = "json|form:json" -> <<"json", "application/json">>    \* two media types, argument is the JSON model
                   [] b = "json|form:form" -> <<"data", "application/x-www-form-urlencoded">>
                   [] b = "vnd+json" -> <<"json", "application/vnd.api+json">>
+                  [] b = "json;param" -> <<"json", "application/vnd.acme+json; version=2">>   \* the declared media type is sent verbatim, parameters included
                   [] OTHER -> <<"none", "">>
 
 
